@@ -61,6 +61,7 @@ type FuncContract struct {
 	CallAsrt  []*Clause
 	Inline    bool // verify by inlining at call sites (no contract)
 	Implements string
+	Signature string
 	File      string
 	Line      int
 	NoSafety  bool
@@ -73,6 +74,12 @@ type SpecFn struct {
 	Ret    string
 	Body   Expr // nil = uninterpreted
 	Src    string
+}
+
+type PredDef struct {
+	Name   string
+	Params [][2]string // name, optional Go type name (for field access)
+	Body   Expr
 }
 
 type GhostVar struct {
@@ -93,6 +100,7 @@ type Contracts struct {
 	Specs    map[string]*SpecFn
 	SpecOrd  []string
 	Ghosts   map[string]*GhostVar
+	Preds    map[string]*PredDef
 	GhostOrd []string
 	Axioms   []*Axiom
 	Lemmas   []*Clause
@@ -131,7 +139,7 @@ func splitLabel(s string) (label string, props []string, name string, rest strin
 }
 
 func NewContracts() *Contracts {
-	return &Contracts{Funcs: map[string]*FuncContract{}, FuncType: map[string]*FuncContract{}, Specs: map[string]*SpecFn{}, Ghosts: map[string]*GhostVar{}}
+	return &Contracts{Funcs: map[string]*FuncContract{}, FuncType: map[string]*FuncContract{}, Specs: map[string]*SpecFn{}, Ghosts: map[string]*GhostVar{}, Preds: map[string]*PredDef{}}
 }
 
 // LoadContractFile reads all //@ lines of a file. pkgPrefix is prepended to
@@ -158,8 +166,8 @@ func (c *Contracts) LoadContractFile(path, pkgPrefix string, trusted bool) error
 	}
 	// merge continuation lines: a line whose first token is not a keyword continues the previous one
 	keywords := map[string]bool{"func": true, "functype": true, "requires": true, "ensures": true, "proves": true, "let": true, "modifies": true,
-		"pure": true, "loop": true, "at": true, "spec": true, "ghost": true, "axiom": true, "lemma": true, "regex": true, "smt": true,
-		"inline": true, "implements": true, "trusted": true, "nosafety": true, "opaque": true, "params": true, "results": true}
+		"pure": true, "loop": true, "at": true, "spec": true, "ghost": true, "axiom": true, "lemma": true, "regex": true, "pred": true, "smt": true,
+		"inline": true, "implements": true, "signature": true, "trusted": true, "nosafety": true, "opaque": true, "params": true, "results": true}
 	var merged []line
 	for _, l := range lines {
 		t := strings.TrimSpace(l.txt)
@@ -262,6 +270,8 @@ func (c *Contracts) LoadContractFile(path, pkgPrefix string, trusted bool) error
 			cur.Opaque = true
 		case kw == "implements":
 			cur.Implements = rest
+		case kw == "signature":
+			cur.Signature = rest
 		case strings.HasPrefix(kw, "loop#"):
 			var k int
 			fmt.Sscanf(kw, "loop#%d", &k)
@@ -312,6 +322,30 @@ func (c *Contracts) LoadContractFile(path, pkgPrefix string, trusted bool) error
 			}
 			c.Specs[sf.Name] = sf
 			c.SpecOrd = append(c.SpecOrd, sf.Name)
+			cur = nil
+		case kw == "pred":
+			// pred name(p1, p2) = expr   — state-dependent macro, expanded at each use
+			i := strings.Index(rest, "(")
+			j := strings.Index(rest, ")")
+			k := strings.Index(rest, "=")
+			if i < 0 || j < i || k < j {
+				return fmt.Errorf("%s:%d: bad pred", path, l.no)
+			}
+			pd := &PredDef{Name: strings.TrimSpace(rest[:i])}
+			for _, p := range strings.Split(rest[i+1:j], ",") {
+				f := strings.Fields(p)
+				if len(f) == 1 {
+					pd.Params = append(pd.Params, [2]string{f[0], ""})
+				} else if len(f) == 2 {
+					pd.Params = append(pd.Params, [2]string{f[0], f[1]})
+				}
+			}
+			e, err := ParseExpr(strings.TrimSpace(rest[k+1:]))
+			if err != nil {
+				return fmt.Errorf("%s:%d: %v", path, l.no, err)
+			}
+			pd.Body = e
+			c.Preds[pd.Name] = pd
 			cur = nil
 		case kw == "ghost":
 			// ghost name(Sort, Sort) Sort
